@@ -36,6 +36,8 @@ type z =
 | Zpos of positive
 | Zneg of positive
 
+val eqb : bool -> bool -> bool
+
 module Nat :
  sig
   val eqb : nat -> nat -> bool
@@ -173,11 +175,19 @@ val fold_left : ('a1 -> 'a2 -> 'a1) -> 'a2 list -> 'a1 -> 'a1
 
 val fold_right : ('a2 -> 'a1 -> 'a1) -> 'a1 -> 'a2 list -> 'a1
 
+val existsb : ('a1 -> bool) -> 'a1 list -> bool
+
 val forallb : ('a1 -> bool) -> 'a1 list -> bool
 
 val filter : ('a1 -> bool) -> 'a1 list -> 'a1 list
 
 val combine : 'a1 list -> 'a2 list -> ('a1 * 'a2) list
+
+val list_prod : 'a1 list -> 'a2 list -> ('a1 * 'a2) list
+
+val firstn : nat -> 'a1 list -> 'a1 list
+
+val skipn : nat -> 'a1 list -> 'a1 list
 
 val repeat : 'a1 -> nat -> 'a1 list
 
@@ -403,3 +413,75 @@ val count_lt : z -> z list -> z
 val count_le : z -> z list -> z
 
 val ssd_spec : z -> arr -> arr -> z list -> z
+
+val assoc : z -> (z * z) list -> z option
+
+val renum_go : (z * z) list -> z -> z list -> z list * z
+
+val renumber : z -> z list -> z list * z
+
+val get : z -> (z * z) list -> z
+
+val fstep : (z -> z -> z) -> z -> z list -> (z * z) -> z list
+
+val foldl_labeled : (z -> z -> z) -> z -> z -> z list -> z list -> z list
+
+val f_sum : ity option -> z -> z -> z
+
+val f_max : z -> z -> z
+
+val f_min : z -> z -> z
+
+val labeled_sum : ity option -> z -> z list -> z list -> z list
+
+val labeled_max : z -> z -> z list -> z list -> z list
+
+val labeled_min : z -> z -> z list -> z list -> z list
+
+val region : z -> z list -> z list -> z list
+
+val relabel : z list -> z list * z
+
+val same_go : (z * z) list -> (z * z) list -> z list -> z list -> bool
+
+val is_same_labeling : z list -> z list -> bool
+
+val same_labeling_spec : z list -> z list -> bool
+
+val remove_regions : z list -> z list -> z list
+
+val borders_at : z -> arr -> arr -> z list -> bool
+
+val borders : z -> arr -> arr -> z list
+
+val border_at : arr -> arr -> z -> z -> z list -> bool
+
+val border : arr -> arr -> z -> z -> z list
+
+val borders_spec : z -> arr -> arr -> z list -> bool
+
+val upd_ext : z list -> z list -> z list
+
+val ext_init : z list -> z list
+
+val bbox_scan : arr -> z list
+
+val bbox_generic : arr -> z list
+
+val bbox2_row : nat -> z list -> z -> z -> z -> z list -> z list
+
+val rows_of : nat -> nat -> z list -> z list list
+
+val bbox_fast2 : arr -> z list
+
+val nz_positions : arr -> z list list
+
+val bbox_spec : arr -> z list
+
+val bbox_labeled_spec : arr -> z -> z list list
+
+val fullhistogram : z list -> z list
+
+val count_eq : z -> z list -> z
+
+val com_sums : arr -> z list -> z -> z * z list
